@@ -608,7 +608,9 @@ pub fn get_close_matches<'a, T: DiffableStr + ?Sized>(
         if ratio >= cutoff {
             // we're putting the word itself in reverse in so that matches with
             // the same ratio are ordered lexicographically.
-            matches.push(((ratio * u32::MAX as f32) as u32, Reverse(possibility)));
+            // ratio is a non-negative float, for which the bit pattern orders
+            // like the value and, unlike a scaled integer, keeps close ratios apart.
+            matches.push((ratio.to_bits(), Reverse(possibility)));
         }
     }
 
